@@ -65,8 +65,13 @@ def run_property(prop: str, root: str, tier: str, seed: int, evidence_dir=None, 
         obs.analysed['dependence_summaries'] = ctx._dep.evaluations
         obs.analysed['dependence_rounds'] = ctx._dep.rounds
     extra = {}
-    if tier == 'thorough' and hasattr(mod, 'thorough'):
-        extra = mod.thorough(ctx, obs) or {}
+    if tier == 'thorough':
+        from .thorough import sweep, selftest_summary
+        extra.update(sweep(ctx, obs, prop))
+        if hasattr(mod, 'thorough'):
+            extra.update(mod.thorough(ctx, obs) or {})
+        if os.environ.get('SA_NO_SELFTEST') != '1':
+            extra.update(selftest_summary(prop, root, seed))
     floor_errors = []
     floor = getattr(mod, 'FLOOR', 1)
     n_decided = sum(1 for o in obs.items if o.verdict in (DISCHARGED, VIOLATED))
